@@ -52,7 +52,7 @@ def native(req, timeout=120):
 
 
 def _safe(name):
-    return re.sub(r"[^A-Za-z0-9_.\[\]#,-]+", "_", name)[:150]
+    return re.sub(r"[^A-Za-z0-9_.-]+", "_", name)[:150]
 
 
 def write_replay(pid, name, payload):
